@@ -31,7 +31,9 @@ def leaves(x, path=()):
         for k, v in x.items():
             yield from leaves(v, path + (k,))
     elif isinstance(x, list):
-        if x and all(not isinstance(e, (dict, list)) for e in x):
+        if not x:
+            yield path, x           # an empty list of differences can be corrupted into a non-empty one
+        elif all(not isinstance(e, (dict, list)) for e in x):
             yield path, x
         else:
             for k, v in enumerate(x):
@@ -66,6 +68,8 @@ def corrupt(rng, ev, pool):
             if not others:
                 continue
             new = rng.choice(sorted(others))
+        elif isinstance(v, list) and not v:
+            new = [["corrupted", "corrupted"]]
         else:
             new = list(v)
             if rng.random() < 0.5 and len(new) > 0:
